@@ -21,6 +21,7 @@ from .ops import R
 PROP = "C15"
 RUNS = {"quick": 320, "thorough": 12000}
 RUN_TIMEOUT = 180.0
+CAMPAIGN_WALL = {"quick": 420.0, "thorough": 6000.0}  # per phase (campaign, walks); see core._worker_loop
 MAX_TRACE_EVENTS = 60000
 ASSUMPTIONS = [
     "the solo reference is computed by the same code (fresh fork, fresh pool, no predecessor, other heap poison): the check "
@@ -700,6 +701,7 @@ def _execute_walk(plan, want_logs):
 class _WalkEngine(object):
     PROP = PROP
     RUN_TIMEOUT = 300.0
+    CAMPAIGN_WALL = CAMPAIGN_WALL
 
     @staticmethod
     def gen_plan(rng, tier, i):
